@@ -189,8 +189,8 @@ class SimPath:
 # --------------------------------------------------------------------------- data boxes (surface S8)
 
 
-def make_box(records, rows, box):
-    """Column container for fill.numpy built from the rows of the record table."""
+def make_box(records, rows, box, rename=None):
+    """Column container for fill.numpy built from the rows of the record table (``rename``: other column names)."""
     recs = [records[i] for i in rows]
     cols = {
         "x": np.array([r["x"] for r in recs], dtype=np.float64),
@@ -200,14 +200,17 @@ def make_box(records, rows, box):
         "s": np.array([r["s"] for r in recs], dtype=str) if recs else np.array([], dtype=str),
         "t": np.array([r["t"] for r in recs], dtype=str) if recs else np.array([], dtype=str),
     }
+    if rename:
+        cols = {rename.get(k, k): v for k, v in cols.items()}
     if box == "dict":
         return cols
     if box == "frame":
         import pandas as pd
 
         d = dict(cols)
-        d["s"] = pd.Series(list(cols["s"]), dtype=object)
-        d["t"] = pd.Series(list(cols["t"]), dtype=object)
+        for k_ in ("s", "t"):
+            k_ = (rename or {}).get(k_, k_)
+            d[k_] = pd.Series(list(cols[k_]), dtype=object)
         return pd.DataFrame(d)
     if box == "rec":
         names = list(cols)
